@@ -209,6 +209,19 @@ check(
     "DESIGN.md section 4 C17",
 )
 
+check(
+    "C20", "exploration",
+    "Generated request histories (register / maybe_unlink / unregister, balanced and unbalanced, malformed lines, mistyped "
+    "resources, clients leaving) from 1-3 clients against a REAL resource-tracker process (resource_tracker.main on a pipe), "
+    "synchronised after every request through the FIFO pipe with a sentinel file; the set of existing files/folders is "
+    "compared with a refcount model after every request and after the last client closed (tracker must exit and clean "
+    "exactly what is still registered).",
+    "Protocol level: a client is a copy of the pipe's write end, its death is the closing of that descriptor; messages are "
+    "whole lines; the TemporaryResourcesManager layer above the protocol is exercised only indirectly (C19's Parallel runs).",
+    "Hypothesis model-based request histories against a live tracker process vs refcount reference model (file-system observation)",
+    "DESIGN.md section 4 C20",
+)
+
 NOT_YET = "check not built yet in this session (work in progress; see DESIGN.md section 4 for the planned generator and oracle)"
 
 
